@@ -184,6 +184,33 @@ pub mod flow {
     }
 }
 
+pub mod literals {
+    use super::types::Point;
+    // Composite constants inside function bodies (not only in const items).
+    pub fn big(x: u256) -> u256 {
+        x + 0x500000000000000000000000000000001
+    }
+    #[inline(never)]
+    pub fn origin(flag: bool) -> Point {
+        if flag {
+            Point { x: 3, y: -4 }
+        } else {
+            Point { x: 0, y: 0 }
+        }
+    }
+    pub fn third(x: u32) -> u32 {
+        let d: NonZero<u32> = 3;
+        x / d.into()
+    }
+    #[inline(always)]
+    pub fn pair() -> (u64, (u8, i16)) {
+        (18446744073709551615, (255, -32768))
+    }
+    pub fn maybe() -> Option<u256> {
+        Option::Some(7)
+    }
+}
+
 pub mod data {
     use core::dict::Felt252Dict;
     pub fn dict_roundtrip(k: felt252, v: u64) -> u64 {
